@@ -57,6 +57,17 @@ def _kw(inp, order_own_first=False):
             ivs.sort(key=lambda sv: sv[0] != b["name"])
         pib[b["name"]] = {s: PI({c: float(fr(w)) for c, w in ws}) for s, ws in ivs}
     kw["pref_intervals_by_bloc"] = pib
+    # presentation: the key order of the parameter dictionaries is not part of the model; a seeded share of the grid writes the
+    # cohesion rows / interval rows / bloc dictionaries in reversed key order
+    do = inp.get("dict_order", 0)
+    rev = lambda d: dict(reversed(list(d.items())))  # noqa
+    if do == 1:
+        kw["cohesion_parameters"] = {b: rev(r) for b, r in kw["cohesion_parameters"].items()}
+    elif do == 2 and not order_own_first:
+        kw["pref_intervals_by_bloc"] = {b: rev(r) for b, r in pib.items()}
+    elif do == 3:
+        kw["bloc_voter_prop"] = rev(kw["bloc_voter_prop"])
+        kw["cohesion_parameters"] = rev(kw["cohesion_parameters"])
     return kw
 
 
@@ -99,7 +110,7 @@ def _bag(pp, keep, scores=False):
 
 def _explore(f, max_paths):
     """exact law of f() (a tuple of JSON strings, one per observed component); returns (laws per component, paths, error)"""
-    from ..rng import EX, TooManyPaths
+    from ..rng import EX, TooManyPaths, ReplayDiverged
     laws, n, err = None, 0, ""
     try:
         for r, p, log in EX.runs(f, max_paths=max_paths):
@@ -113,6 +124,8 @@ def _explore(f, max_paths):
                 d[x] = d.get(x, 0) + p
     except TooManyPaths:
         return None, n, "TooManyPaths"
+    except ReplayDiverged:
+        return None, n, "TooManyPaths"       # an unmodelled random primitive: the law cannot be enumerated (counted, not decided)
     return laws, n, err
 
 
@@ -510,6 +523,12 @@ def grid(tier, seed):
         pts = [p for p in pts if p["model"] in only or p.get("tag", "") in only]
     # name-BT MCMC with a single supported candidate has nothing to swap (IndexError in the code: a C14 matter, not a distribution)
     pts = [p for p in pts if p["model"] != "nameBT_mcmc" or all(len(_supported(p, b, True)) >= 2 for b in p["blocs"])]
+    rd = random.Random(1661 + seed)
+    for pt in pts:
+        if pt.get("model") != "Cambridge" and "dict_order" not in pt and rd.random() < 0.4:
+            # the MCMC kernels are extracted from the chain's fixed seed state, which follows the order of the bloc dictionary
+            # (a logged assumption of the harness): those points keep the bloc order and only permute the inner dictionaries
+            pt["dict_order"] = rd.choice([1, 2] if "mcmc" in pt.get("model", "") else [1, 2, 3])
     return pts
 
 
